@@ -5,6 +5,7 @@ import SfxModel.DriverConv
 import SfxModel.DriverMath
 import SfxModel.DriverText
 import SfxModel.ExtOps
+import SfxModel.ExtFrom
 /-
   Main.lean — line-protocol driver.  stdin: the Rust harness' output, one `request => answer` per line.
   For every line: recompute the answer with the model (projected to the build profile given as the first
@@ -42,7 +43,8 @@ def isTextOp (op : String) : Bool := op == "h_from_str" || op.startsWith "p_" ||
 
 /-- model answer, already rendered for the profile (`none`: no model for this request) -/
 def modelOf (prof : Profile) (L : Layout) (op : String) (args : List String) : Option String :=
-  if op == "wprog" then (DriverWrap.run L prof args).map (·.1)
+  if ExtFrom.isOp op then ExtFrom.model prof L op args
+  else if op == "wprog" then (DriverWrap.run L prof args).map (·.1)
   else if op == "fprog" then (ExtOps.run L prof args).map (·.1)
   else if codecOps.contains op then DriverCodec.model L op args
   else if isConvOp op then DriverConv.model prof L op args
@@ -54,7 +56,8 @@ def modelOf (prof : Profile) (L : Layout) (op : String) (args : List String) : O
 
 /-- documented answer, rendered (`none`: unconstrained) -/
 def specOf (prof : Profile) (L : Layout) (op : String) (args : List String) : Option String :=
-  if op == "wprog" then (DriverWrap.run L prof args).map (·.2)
+  if ExtFrom.isOp op then ExtFrom.spec prof L op args
+  else if op == "wprog" then (DriverWrap.run L prof args).map (·.2)
   else if op == "fprog" then (ExtOps.run L prof args).map (·.2)
   else if codecOps.contains op then DriverCodec.spec L op args
   else if isConvOp op then DriverConv.spec prof L op args
@@ -66,7 +69,7 @@ def isSpecial (ans : String) : Bool := ans == "P" || ans.startsWith "E;" || ans.
 
 def argsInRange (L : Layout) (op : String) (args : List String) : Bool :=
   -- operands of typed arithmetic requests are bit patterns of the layout (the driver rejects others)
-  if op.startsWith "h_div_rem_from" || op.startsWith "t_" || isTextOp op || op == "wprog" || op == "fprog" || op == "decode" || op.startsWith "from_" || isConvOp op then true
+  if op.startsWith "h_div_rem_from" || op.startsWith "t_" || isTextOp op || op == "wprog" || op == "fprog" || op == "decode" || op.startsWith "from_" || isConvOp op || ExtFrom.isOp op then true
   else args.all (fun a => match a.toInt? with | some i => decide (inRange L i) | none => true)
 
 partial def loop (prof : Profile) (h : IO.FS.Stream) (out : IO.FS.Stream) (st : Stats) : IO Stats := do
